@@ -392,6 +392,10 @@ func runC09(r *simkit.R) {
 	var events []string // flush-put, resync, restart, crash: what happened, in order
 	collectedAt := map[int]int{}
 	collectedSeq := map[int]uint64{}
+	flushSeen, flushStart, blobDeleted := map[string]uint64{}, map[string]uint64{}, map[string]uint64{}
+	putRet := map[int]uint64{}        // return stamp of the latest finished upload per object
+	lockedAfter := map[int]bool{}     // a lock of the object was acknowledged after its removal
+	removalSeq := map[string]uint64{} // invocation stamp of the latest acknowledged removal per address
 	observe := func(where string) {
 		if strings.HasPrefix(where, "x:") || where == "crash-restart" || strings.HasPrefix(where, "final ") {
 			events = append(events, strings.TrimPrefix(strings.TrimPrefix(where, "x:"), "final "))
@@ -418,6 +422,10 @@ func runC09(r *simkit.R) {
 			if why, was := collected[id]; was {
 				var how string
 				switch {
+				case gerr == nil && lockedAfter[id] && inB && !inW:
+					// the bytes are an orphan blob; the metadata record was only garbage-marked and
+					// a lock acknowledged after the mark overrides it
+					how = "bytes are back in blob storage (Get succeeds: a lock acknowledged after the garbage mark overrides it)"
 				case gerr == nil:
 					how = "Get succeeds"
 				case inB && inW:
@@ -433,6 +441,9 @@ func runC09(r *simkit.R) {
 						kind = "peek"
 					}
 					sig := fmt.Sprintf("removed object is back: %s [observed at %s; since it was seen gone: %s]", how, kind, eventsSince(events, collectedAt[id]))
+					if sa := short(a); blobDeleted[sa] > removalSeq[sa] && removalSeq[sa] > 0 && flushStart[sa] > blobDeleted[sa] {
+						sig = "removed object is back (a flush of it began after its blob had been deleted): " + how
+					}
 					w.r.Failf("resurrection", sig, "o%d was removed (%s) and not stored anew, but at %s %s", id, why, where, how)
 				}
 				continue
@@ -459,6 +470,10 @@ func runC09(r *simkit.R) {
 				delete(removalAcked, op.id)
 				delete(collected, op.id)
 				putsInFlight[op.id]++
+				delete(blobDeleted, short(w.addr(op.id)))
+				delete(flushStart, short(w.addr(op.id)))
+				delete(removalSeq, short(w.addr(op.id)))
+				delete(lockedAfter, op.id)
 			}
 			if strings.HasPrefix(op.kind, "x:") {
 				return op.kind, func(*simkit.Task) {
@@ -498,17 +513,42 @@ func runC09(r *simkit.R) {
 			r.Op("%s -> %v", op, errS(op.err))
 			if op.kind == "put" {
 				putsInFlight[op.id]--
+				putRet[op.id] = t.Ret
+				// only blob deletions after the latest upload matter for the flush-order diagnosis
+				delete(blobDeleted, short(w.addr(op.id)))
 			}
 			if op.err == nil {
+				// a removal that overlapped an upload of the same object may linearize before it:
+				// only removals invoked after every upload had returned count
+				rm := -1
 				switch op.kind {
 				case "tomb":
-					removalAcked[w.u.Specs[op.id].Target] = true
+					rm = w.u.Specs[op.id].Target
+				case "mark", "drop":
+					rm = op.id
+				}
+				if rm >= 0 && (putsInFlight[rm] > 0 || putRet[rm] > t.Call) {
+					r.Probe("removal overlapping an upload of the same object (not judged)")
+					return
+				}
+				switch op.kind {
+				case "tomb":
+					removalAcked[rm] = true
+					removalSeq[short(w.addr(rm))] = t.Call
+				case "lock":
+					if tg := w.u.Specs[op.id].Target; tg >= 0 && tg < nreg && removalAcked[tg] {
+						lockedAfter[tg] = true
+					}
 				case "mark", "drop":
 					removalAcked[op.id] = true
+					removalSeq[short(w.addr(op.id))] = t.Call
 				case "get", "getbytes":
 					// (a read invoked before the address was seen gone may linearize before the removal)
 					if why, was := collected[op.id]; was && t.Call > collectedSeq[op.id] {
 						how := "Get succeeds"
+						if lockedAfter[op.id] {
+							how = "bytes are back in blob storage (Get succeeds: a lock acknowledged after the garbage mark overrides it)"
+						}
 						if op.kind == "getbytes" {
 							how = "bytes are back in blob storage (metadata-less read succeeds)"
 						}
@@ -526,6 +566,40 @@ func runC09(r *simkit.R) {
 			boundaries++
 			if strings.HasPrefix(key, "blob:put") {
 				events = append(events, "blob-put")
+			}
+			// when did a flush of an address start (its blob put first seen parked), and when was
+			// the blob of an address deleted: a flush that starts AFTER the blob deletion of a
+			// removed object cannot be the worker-holds-bytes race (F18)
+			now := w.k.Seq()
+			parkedNow := map[string]bool{}
+			for _, t := range w.k.Parked() {
+				if strings.HasPrefix(t.Key, "blob:put:") || strings.HasPrefix(t.Key, "blob:putbatch:") {
+					for _, sa := range strings.Split(t.Key[strings.LastIndexByte(t.Key, ':')+1:], ",") {
+						parkedNow[sa] = true
+						if _, ok := flushSeen[sa]; !ok {
+							flushSeen[sa] = now
+						}
+					}
+				}
+			}
+			if strings.HasPrefix(key, "blob:put") {
+				for _, sa := range strings.Split(key[strings.LastIndexByte(key, ':')+1:], ",") {
+					// (several flushes of one address may be parked together: all of them count
+					// as begun when the first was seen)
+					if seen, ok := flushSeen[sa]; ok {
+						flushStart[sa] = seen
+					} else {
+						flushStart[sa] = now
+					}
+				}
+			}
+			for sa := range flushSeen {
+				if !parkedNow[sa] {
+					delete(flushSeen, sa)
+				}
+			}
+			if strings.HasPrefix(key, "blob:delete:") {
+				blobDeleted[key[len("blob:delete:"):]] = now
 			}
 			if crashArmed && boundaries == crashAt {
 				crashArmed = false
